@@ -67,6 +67,13 @@ def iter_elements(ip, it):
     if isinstance(it, SymZip):
         n = it.seqs[0]
         return n, lambda k: LTuple([Z(s[k]) for s in it.seqs]), it.seqs
+    if isinstance(it, SObj) and "FilteredDataLike" in [c.__name__ for c in it.cls.__mro__]:
+        # FilteredDataLike.__iter__: `for idx, _ in enumerate(self.result): yield FilteredDataItem(self, idx)`
+        ip.check_generator(it.cls)
+        seq = ip.seq_of(it.attrs["result"])
+        import valida.data as _vd
+        item_cls = ip.program.modules["valida.data"].FilteredDataItem
+        return seq, lambda k: ip.call_class(item_cls, [it, ZInt(k)], {})
     seq = ip.iter_seq(it)
     return seq, lambda k: Z(seq[k])
 
